@@ -123,8 +123,9 @@ PROPS["C07"] = dict(
 
 def _c04_runs(tier):
     rs = []
-    for mode in ("small", "units", "dense"):
+    for mode in ("small", "units", "dense", "widths"):
         rs.append(Run(C(), "harness/p_c04.c", ["--mode=" + mode], group="host-" + mode))
+    rs.append(Run(C(sse2=0, **MIN), "harness/p_c04.c", ["--mode=widths"], group="min-widths"))
     rs.append(Run(C(sse2=0, **MIN), "harness/p_c04.c", ["--mode=dense"], group="host-dense"))
     rs.append(Run(C(**MIN), "harness/p_c04.c", ["--mode=big"], group="min-big"))
     if tier == "thorough":
@@ -183,7 +184,7 @@ PROPS["C08"] = dict(
 
 def _c13_runs(tier):
     rs = []
-    for mode in ("colswap", "rows", "views", "bits", "combine", "perm_small", "perm_big"):
+    for mode in ("colswap", "rows", "views", "bits", "combine", "perm_small", "perm_big", "perm_tail"):
         rs.append(Run(C(), "harness/p_c13.c", ["--mode=" + mode, "--setbits=24"], group=mode))
     for mode in ("rows", "views", "combine", "perm_big") + (("perm_small", "colswap") if tier == "thorough" else ()):
         rs.append(Run(C(sse2=0, **MIN), "harness/p_c13.c", ["--mode=" + mode, "--setbits=24"], group=mode))
